@@ -14,7 +14,7 @@ LEVEL = 'fault_enumeration'
 RULE = ('corpus of (program, query, pre-existing bindings): A body trees with <= N operators in the C05 context; B '
         'single-clause predicates over all head-argument shapes x query shapes; C the meta-call programs of C09 (once, '
         'findall, \\+, call/N); D bare unify(t1,t2) over a term universe; E clauses that assert/retract (fresh engine per '
-        'run); F programs whose fact predicates are Python generators; H dynamic facts containing variables used by clauses whose later goals bind them in several ways. For each: a fault-free run counts the answers n, '
+        'run); F programs whose fact predicates are Python generators; H dynamic facts containing variables used by clauses whose later goals bind them in several ways; corpus A also in a process where every logger is at DEBUG and a handler keeps the log records in memory. For each: a fault-free run counts the answers n, '
         'then one run per ending: exhaustion, and for every k in 0..n {close() after the k-th answer, dropping the last '
         'reference, throw() by the consumer}; for F additionally one run per event j at which a Python predicate raises. '
         'After every ending EVERY live engine variable (weak set hook) must be in the binding state it had before the '
@@ -539,10 +539,42 @@ NSH = 32
 def plan(tier):
     kinds = ['A', 'B', 'C', 'D', 'E', 'F', 'H']
     hd = 5 if tier == 'quick' else 6
-    return [(kind, k, NSH, tier) for kind in kinds for k in range(NSH)] + [('hist', hd, k, 2 * NSH) for k in range(2 * NSH)]
+    return ([(kind, k, NSH, tier) for kind in kinds for k in range(NSH)] + [('hist', hd, k, 2 * NSH) for k in range(2 * NSH)]
+            + [('logged', 'A', k, NSH, tier) for k in range(NSH)])
 
 
 def run_shard(spec):
+    if spec[0] == 'logged':
+        # the same corpus in a process whose logging is configured the way test runners and services do:
+        # every logger at DEBUG, records kept in memory (a buffering handler) - a library may log, but
+        # what it hands to the logging system must not keep bindings alive
+        import collections
+        import logging
+
+        class Keep(logging.Handler):
+            records = collections.deque(maxlen=20000)
+
+            def emit(self, record):
+                self.records.append(record)
+        root = logging.getLogger()
+        lg = logging.getLogger('yldprolog')
+        saved = (root.level, lg.level, lg.propagate)
+        h = Keep()
+        root.addHandler(h)
+        root.setLevel(logging.DEBUG)
+        lg.setLevel(logging.DEBUG)
+        lg.propagate = True
+        try:
+            acc = run_shard(spec[1:])
+        finally:
+            root.removeHandler(h)
+            root.setLevel(saved[0])
+            lg.setLevel(saved[1])
+            lg.propagate = saved[2]
+            h.records.clear()
+        for sig in list(acc.groups):
+            acc.groups['debug-logging-with-buffered-records:' + sig] = acc.groups.pop(sig)
+        return acc
     acc = Acc()
     # everything allocated so far (memoised tree lists, modules) is long-lived: keep it out of the
     # collections that snapshot() forces, which then only look at what the runs allocate
